@@ -26,10 +26,12 @@ var c09ReqHdrs = []map[string]string{{}, {"X-K": "v"}, {"X-K": "w"}, {"X-K": ""}
 	// two constrained headers whose expressions disagree on each other's values, straight and crossed
 	{"X-K": "v", "Y-K": "w"}, {"X-K": "w", "Y-K": "v"}, {"X-K": "vw"}}
 
-// c09HdrSetsRespec: the constraint sets of the re-specification histories (one more than the BFS alphabet)
+// c09HdrSetsRespec: the constraint sets of the re-specification histories (more than the BFS alphabet)
 var c09HdrSetsRespec = append(append([][]string{}, c09HdrSets...), []string{"X-K", "^v$", "Y-K", "^w$"},
 	// one header constrained twice, under two spellings of its name: both expressions gate the route
-	[]string{"x-k", "^v", "X-K", "w$"})
+	[]string{"x-k", "^v", "X-K", "w$"},
+	// a call that is refused (the second expression does not compile): the set given before stays as it was
+	[]string{"Y-K", "b", "X-K", "("})
 var c09Paths = []string{"/s", "/o", "/o/t", "/o/u", "/d/v", "/e", "/e/v", "/zz", "/o/", "//s", "/d/v/w", "/o/t/u"}
 var c09Methods = []string{"GET", "POST", "PUT"}
 
@@ -85,6 +87,8 @@ type c09World struct {
 	regs  []*c09Reg
 	hit   int
 	par   map[string]string
+	// bad: a Headers() call was accepted although it had to be refused, or the other way round
+	bad string
 }
 
 // c09Apply executes ops on a fresh Flame; ok=false when an op is not enabled (registration
@@ -148,8 +152,25 @@ func c09ApplyI(ops []c09Op, interleave bool) (w *c09World, ok bool) {
 			if op.Target >= len(w.regs) {
 				return w, false
 			}
-			w.regs[op.Target].handle.Headers(op.Pairs...)
-			w.regs[op.Target].pairs = op.Pairs
+			mustRefuse := len(op.Pairs)%2 != 0
+			for i := 1; i < len(op.Pairs); i += 2 {
+				if _, err := regexp.Compile(op.Pairs[i]); err != nil {
+					mustRefuse = true
+				}
+			}
+			refused := func() (pv interface{}) {
+				defer func() { pv = recover() }()
+				w.regs[op.Target].handle.Headers(op.Pairs...)
+				return nil
+			}()
+			switch {
+			case refused == nil && mustRefuse:
+				w.bad = fmt.Sprintf("Headers(%q) was accepted", op.Pairs)
+			case refused != nil && !mustRefuse:
+				w.bad = fmt.Sprintf("Headers(%q) was refused: %v", op.Pairs, refused)
+			case refused == nil:
+				w.regs[op.Target].pairs = op.Pairs
+			}
 		}
 	}
 	return w, true
@@ -237,6 +258,10 @@ func c09Probe(m *ref.Matcher, w *c09World, ops []c09Op, l *core.Local) string {
 // c09ProbeH: the probe set over the given request header sets.
 func c09ProbeH(m *ref.Matcher, w *c09World, ops []c09Op, l *core.Local, reqHdrs []map[string]string) string {
 	var dig strings.Builder
+	if w.bad != "" {
+		l.Violate("headers-call-verdict", w.bad, c09Case{Ops: ops})
+		return "refused"
+	}
 	for _, method := range c09Methods {
 		for _, path := range c09Paths {
 			for _, hdr := range reqHdrs {
@@ -528,6 +553,9 @@ func c09Replay(raw json.RawMessage) (bool, string) {
 	w, ok := c09ApplyI(c.Ops, c.Interleaved)
 	if !ok {
 		return false, "history not executable as recorded"
+	}
+	if w.bad != "" {
+		return true, w.bad
 	}
 	m := ref.NewMatcher()
 	if c.Method == "" {
